@@ -151,7 +151,11 @@ var constructs = []construct{
 	// schema text
 	{name: "schema-set-nest", format: fSchemaText, quick: 10000, build: func(n int) string { return "entity A { a: " + rep("Set<", n) + "Long" + rep(">", n) + " };" }},
 	{name: "schema-set-open", format: fSchemaText, build: func(n int) string { return "entity A { a: " + rep("Set<", n) }},
-	{name: "schema-record-nest", format: fSchemaText, build: func(n int) string { return "entity A " + rep("{a:", n) + "Long" + rep("}", n) + ";" }},
+	// Schema.MarshalCedar indents nested record types with one tab per level: the output is quadratic in the nesting depth
+	// (depth 10^5 = 400 KB of schema text => 10 GB of output, 33 GB of memory, 25 minutes). Capped where the output stays
+	// at 50 MB; beyond that the encoder is not explored (carve-out: memory exhaustion is not judged), the decoder is
+	// (schema-record-open).
+	{name: "schema-record-nest", format: fSchemaText, maxN: 10000, build: func(n int) string { return "entity A " + rep("{a:", n) + "Long" + rep("}", n) + ";" }},
 	{name: "schema-record-open", format: fSchemaText, build: func(n int) string { return "type T = " + rep("{a:", n) }},
 	{name: "schema-common-chain", format: fSchemaText, maxN: 20000, build: func(n int) string {
 		var sb strings.Builder
@@ -278,6 +282,9 @@ func (c *construct) ladderDepths(limit int) []int {
 	}
 	var out []int
 	for d := 10; d < m; d *= 10 {
+		if d > 10000 && 2*d > m {
+			break // a deep power of ten within a factor two of the maximum adds minutes and no information
+		}
 		out = append(out, d)
 	}
 	out = append(out, m)
